@@ -261,9 +261,22 @@ SyntaxVisitor::Action DeclarationBinder::visitFunctionDefinition(const FunctionD
 
 SyntaxVisitor::Action DeclarationBinder::visitCompoundStatement(const CompoundStatementSyntax* node)
 {
+    // A block may be within a declaration (a GNU statement expression in an
+    // initializer): the types of that declaration aren't those of the block's.
+    TypeStack tys;
+    std::swap(tys_, tys);
     pushNewScope(node, ScopeKind::Block, true);
-    VISIT(node->statements());
+    auto action = visitCompoundStatement_AtStatements(node);
     popScope();
+    std::swap(tys_, tys);
+
+    return action;
+}
+
+SyntaxVisitor::Action DeclarationBinder::visitCompoundStatement_AtStatements(
+        const CompoundStatementSyntax* node)
+{
+    VISIT(node->statements());
 
     return Action::Skip;
 }
